@@ -652,6 +652,16 @@ fn emit(out: &mut String, id: i64, g: &Glyph, valid: bool, why: &str, ch: u8, co
             l1_fail = format!("code point {:X}", *c as u32);
         }
     }
+    for i in &tables.ints {
+        let s = i.to_string();
+        let back = match s.parse::<i64>() {
+            Ok(x) => i.as_signed() == Some(x),
+            Err(_) => s.parse::<u64>().ok().map_or(false, |x| i.as_unsigned() == Some(x)),
+        };
+        if !back {
+            l1_fail = format!("integer {} does not read back from its decimal text", s);
+        }
+    }
     let decl_ok = if single { bytes.starts_with(b"<?xml version='1.0' encoding='UTF-8'?>\n") } else { bytes.starts_with(b"<?xml version=\"1.0\" encoding=\"UTF-8\"?>\n") };
     let _ = std::fmt::Write::write_fmt(
         out,
